@@ -2762,15 +2762,32 @@ again:
 	}
 	/* utcify them all, they're local times of the rule's scale */
 	if (strm->zon) {
+		const bool untilp =
+			!echs_max_instant_p(strm->until) &&
+			!echs_nul_instant_p(strm->until) &&
+			!echs_instant_all_day_p(strm->until);
+		size_t j = 0U;
+
 		for (size_t i = 0U; i < strm->ncch; i++) {
 			echs_instant_t x = echs_instant_rescale(
 				strm->cch[i], SCALE_GREGORIAN);
 
 			if (LIKELY(!echs_instant_all_day_p(x) &&
 				   !echs_nul_instant_p(x))) {
-				strm->cch[i] = echs_instant_utc(x, strm->zon);
+				x = echs_instant_utc(x, strm->zon);
+				if (untilp &&
+				    echs_instant_lt_p(strm->until, x)) {
+					/* the local time was within UNTIL's
+					 * local time, the instant isn't: the
+					 * clocks have been changed */
+					continue;
+				}
+				strm->cch[j++] = x;
+			} else {
+				strm->cch[j++] = strm->cch[i];
 			}
 		}
+		strm->ncch = j;
 	}
 	/* convert to target scale */
 	for (size_t i = 0U; i < strm->ncch; i++) {
